@@ -1030,8 +1030,8 @@ func applyEdit(t *rapid.T, g *graphM, name string) bool {
 		r := ix.refs[pick(len(ix.refs), "refNode")]
 		old := g.UTs[r.Ref]
 		if rapid.Bool().Draw(t, "toExisting") && len(g.UTs) > 1 {
-			// only forward in index order, so that no cycle is created that
-			// avoids every object
+			// only to a user type whose body is an object, so that a cycle
+			// closed by this edit still passes through an object
 			nr := pick(len(g.UTs), "newTarget")
 			if nr == r.Ref || g.UTs[nr].A.T.K != "object" {
 				return false
